@@ -16,6 +16,7 @@ ST == INSTANCE Structs
 RT == INSTANCE RustTypes
 RUN == INSTANCE Runtime
 EN == INSTANCE Entries
+CO == INSTANCE Consts
 
 Rec == ndJsonDeserialize(IOEnv.TRACE)
 Enforce == IOEnv.ENFORCE
@@ -322,6 +323,68 @@ C07(c, o) ==
                          "vertex_buffer_layout of " \o vs.struct \o " is not (size_of, caller's step mode, VERTEX_ATTRIBUTES)")
                      : k \in DOMAIN EntEv(o, "rt.vertex_struct") }) ]
 
+(* ------------------------------------------------------------------ C12 *)
+C12(c, o) ==
+  IF HasS(c) /\ ValidAll(o) /\ RetOk(o) /\ RejectedAbout(o, "override")
+  THEN [ dom |-> TRUE, fails |-> { "the module does not compile and the compiler points at the override constants: " \o o.compile.errors[1] } ] ELSE
+  IF ~(HasS(c) /\ ValidAll(o) /\ RetOk(o) /\ Compiled(o) /\ c.S.overrides # << >>) THEN NoVerdict ELSE
+  LET S == c.S
+      fs == IF Has(o.out, "overrides") THEN o.out.overrides.fields ELSE << >>
+      runs == SelectSeq(RtOf(o, "overrides"), LAMBDA e : e.ev = "rt.constants")
+      res == SelectSeq(RtOf(o, "overrides"), LAMBDA e : e.ev = "rt.resolve")
+      helpers == SelectSeq(RtOf(o, "entries"), LAMBDA e : e.ev \in {"rt.vertex_entry", "rt.fragment_entry"})
+  IN [ dom |-> TRUE, fails |->
+      Chk([ i \in DOMAIN fs |-> [ name |-> fs[i].name, ty |-> fs[i].ty ] ] = [ i \in DOMAIN S.overrides |-> [ name |-> S.overrides[i].name, ty |-> CO!FieldType(S.overrides[i]) ] ],
+          "fields of OverrideConstants are " \o ToJson([ i \in DOMAIN fs |-> [ name |-> fs[i].name, ty |-> fs[i].ty ] ]) \o " for overrides " \o ToJson([ i \in DOMAIN S.overrides |-> [ name |-> S.overrides[i].name, ty |-> CO!FieldType(S.overrides[i]) ] ]))
+      \cup { "OverrideConstants cannot be used as documented: " \o m : m \in ProbeFail(o, "overrides") }
+      \cup (IF ProbeFail(o, "overrides") = {} THEN
+              Chk(Len(runs) > 0 /\ Len(res) = Len(runs), "PROJ constants() was not exercised")
+              \cup UNION { Chk(CO!MapOk(S, runs[i].assign, runs[i].map), "constants() returned " \o ToJson(runs[i].map) \o " for the assignment " \o ToJson(runs[i].assign) \o "; expected " \o ToJson(CO!ExpectedMap(S, runs[i].assign))) : i \in DOMAIN runs }
+              \cup (IF Len(res) = Len(runs) THEN
+                      UNION { Chk(res[i].ok, "the shader compiler's override resolution rejects the map: " \o (IF Has(res[i], "err") THEN res[i].err ELSE ""))
+                              \cup (IF res[i].ok THEN Chk(CO!ResolvedOk(S, runs[i].assign, res[i].resolved), "an override did not resolve to the supplied value: " \o ToJson(res[i].resolved) \o " for " \o ToJson(runs[i].assign)) ELSE {})
+                              : i \in DOMAIN runs }
+                    ELSE {})
+            ELSE {})
+      \cup UNION { Chk(helpers[i].constants_eq_overrides, "entry helper " \o helpers[i].fn \o " does not pass the override map through unchanged") : i \in DOMAIN helpers } ]
+
+(* ------------------------------------------------------------------ C15 *)
+ConstSet(o) == { [ name |-> e.name, type_name |-> e.type_name, canon |-> e.canon ] : e \in Range(RtOf(o, "consts")) }
+C15(c, o) ==
+  IF ValidAll(o) /\ RetOk(o) /\ Has(o, "compile") /\ o.compile.outcome = "reject" /\ (\E i \in DOMAIN o.compile.classes : o.compile.classes[i] \notin {"LayoutAssert", "PodPadding"})
+  THEN [ dom |-> TRUE, fails |-> { "the exported constants do not type-check: " \o o.compile.errors[1] } ] ELSE
+  IF ~(ValidAll(o) /\ RetOk(o) /\ Compiled(o)) THEN NoVerdict ELSE
+  [ dom |-> TRUE, fails |->
+      { "exported constants cannot be read: " \o m : m \in ProbeFail(o, "consts") }
+      \cup (IF ProbeFail(o, "consts") = {} THEN
+              Chk(ConstSet(o) = CO!ExpectedConsts(o.oracle.consts) /\ Len(RtOf(o, "consts")) = Cardinality(ConstSet(o)),
+                  "exported constants " \o ToJson(ConstSet(o) \ CO!ExpectedConsts(o.oracle.consts)) \o " differ from the constant-evaluated WGSL values " \o ToJson(CO!ExpectedConsts(o.oracle.consts) \ ConstSet(o)))
+            ELSE {})
+      \cup (IF HasS(c) THEN
+              UNION { LET k == c.S.consts[i] IN
+                      IF Has(k, "expect") THEN Chk(\E x \in CO!ExpectedConsts(o.oracle.consts) : x.name = k.name /\ x.canon = k.expect,
+                                                   "ORACLE naga evaluates constant " \o k.name \o " differently from the harness (" \o k.expect \o ")")
+                      ELSE {} : i \in DOMAIN c.S.consts }
+            ELSE {}) ]
+
+(* ------------------------------------------------------------------ C16 *)
+C16(c, o) ==
+  IF ~(ParseOk(o) /\ Projected(o)) THEN [ dom |-> FALSE, fails |-> {}, m |-> MemoFor(c) ] ELSE
+  LET m == MemoFor(c)
+      src == o.out.source
+      inc == Has(c.opts, "include")
+      rt == RtOf(o, "source")
+  IN [ dom |-> TRUE, m |-> MPut(m, "nosource", o.out.nosource_sha),
+       fails |->
+         (IF inc
+          THEN Chk(Has(src, "kind") /\ src.kind = "include_str" /\ Has(src, "path") /\ src.path = c.opts.include,
+                   "SOURCE is not include_str! of exactly the given path " \o c.opts.include \o ": " \o ToJson(src))
+          ELSE Chk(Has(src, "kind") /\ src.kind = "embedded" /\ src.eq_input, "SOURCE does not evaluate to the input string (embedded literal of " \o ToJson(src) \o ", input " \o Str(c.src_len) \o " bytes)"))
+         \cup SameOrNew(m, "nosource", o.out.nosource_sha, "include and embedded variants differ outside SOURCE")
+         \cup UNION { Chk((e.ev = "rt.source" => e.eq) /\ (e.ev = "rt.shader_module" => (e.source_eq /\ e.label_none /\ e.returned)) /\ e.ev # "rt.unexpected",
+                          "compiled module: " \o ToJson(e)) : e \in Range(rt) }
+         \cup { "SOURCE / create_shader_module cannot be used as documented: " \o x : x \in ProbeFail(o, "source") } ]
+
 (* ------------------------------------------------------------------ C17 *)
 Renders(o) == Has(o, "renders") /\ o.renders.to_string.ok /\ o.renders.to_string_with_path.ok
 C17(c, o) ==
@@ -378,11 +441,14 @@ Judge0(c, o) ==
     [] Enforce = "C04" -> C04(c, o)
     [] Enforce = "C14" -> C14(c, o)
     [] Enforce = "C07" -> C07(c, o)
+    [] Enforce = "C12" -> C12(c, o)
+    [] Enforce = "C15" -> C15(c, o)
     [] OTHER -> NoVerdict
 
 Stateless(r, c) == [ dom |-> r.dom, fails |-> r.fails, m |-> MemoFor(c) ]
 Judge(c, o) ==
   CASE Enforce = "C09" -> C09(c, o)
+    [] Enforce = "C16" -> C16(c, o)
     [] Enforce = "C17" -> C17(c, o)
     [] Enforce = "C18" -> C18(c, o)
     [] OTHER -> Stateless(Judge0(c, o), c)
